@@ -26,7 +26,7 @@ RULE = (
 )
 ASSUMPTIONS = [
     "oracle: abstract model in this file (from the C11 statement); sha256 computed by hashlib",
-    "contents are three fixed small CSV texts; source files live outside the inputs area",
+    "contents: one small CSV text and two ~80 KiB texts that differ only in their last line; source files live outside the inputs area",
 ]
 ENUM_EXHAUSTIVE = {
     "quick": "all canonical op sequences of length <= 4",
@@ -34,7 +34,8 @@ ENUM_EXHAUSTIVE = {
 }
 NAMES = ["n1", "n2"]
 SOURCES = ["s1.csv", "s2.csv"]
-CONTENTS = {"c1": "a,b\n1,2\n", "c2": "a,b\n3,4\n5,6\n", "c3": "x\n"}
+_BIG = "id,amount\n" + "".join(f"{i},{i * 7 % 1000}\n" for i in range(9000))   # ~80 KiB
+CONTENTS = {"c1": "a,b\n1,2\n", "c2": _BIG + "last,1\n", "c3": _BIG + "last,2\n"}
 WALL_BUDGET_S = {"quick": 150, "thorough": 1500}
 
 
@@ -148,7 +149,7 @@ def check_store(cps, model, sb, who):
             b = f.read()
         latest = model.versions[name][(source, h)]
         if b != latest:
-            problems.append({"who": who, "name": name, "bytes_expected": latest.decode(), "observed": b.decode(errors="replace")})
+            problems.append({"who": who, "name": name, "bytes_expected_tail": latest.decode()[-60:], "observed_tail": b.decode(errors="replace")[-60:], "expected_len": len(latest), "observed_len": len(b)})
         if os.path.basename(got) != h + ".csv":
             problems.append({"who": who, "name": name, "basename_expected": h + ".csv", "observed": os.path.basename(got)})
         fp = core.call_real(fm.get_fingerprint_for_name, name)
